@@ -568,6 +568,8 @@ func main() {
 		out, facts := runLeadHWM(v, donors[v.donorKey()])
 		report(rep, "lead-hwm", nil, v, out, "lead-stale-hwm")
 		rep.Extra["lead_stale_hwm_"+be] = facts
+		out = runContinuousMonitor(v)
+		report(rep, "continuous-monitor", nil, v, out, "continuous-monitor")
 		out = runRestoreWithOpenTx(v, donors[v.donorKey()])
 		report(rep, "restore-open-tx", nil, v, out, "restore-with-open-transaction")
 		out, facts = runLeadPosZero(v, donors[v.donorKey()])
